@@ -180,6 +180,35 @@ Section WithTables.
 End WithTables.
 
 
+(* "every library backend when no URI restricts the request": every backend offering the
+   provider (with at least one registered scheme) is asked *)
+Theorem unrestricted_all_providers P T mx o m flag log out :
+  mk_backends P = Ok T -> unrestricted_op o = Some (m, flag) -> run_op T P mx o = (log, out) ->
+  forall b, (exists s, owns flag P b s) -> exists a, In (Bk b, m, a) log.
+Proof.
+  intros HT Ho H b Hb.
+  assert (Hd : forall t, In b (tvalues t) -> In b (dedup (tvalues t))) by (intros t; apply In_dedup).
+  destruct o; try discriminate; cbn in Ho; cbn [run_op] in H.
+  - (* search *) unfold search in H.
+    destruct us as [[|u r]|]; try discriminate; cbn in Ho;
+      destruct (sq_normalize q) eqn:Eq; try discriminate; injection Ho as <- <-; cbn in H; injection H as <- _;
+      apply (tvalues_lib P T HT) in Hb; apply Hd in Hb; eexists; apply in_map_iff; exists (b, None);
+      (split; [reflexivity|]); apply in_map_iff; exists b; auto.
+  - (* browse roots *) destruct a; try discriminate. injection Ho as <- <-. unfold browse in H. injection H as <- _.
+    apply (tvalues_browse P T HT) in Hb. exists AUnit. apply in_map_iff. exists b. auto.
+  - (* get_distinct *) destruct (field_valid f) eqn:Ef; [|discriminate]. destruct (dq_valid q) eqn:Eq; [|discriminate].
+    injection Ho as <- <-. unfold get_distinct in H. rewrite Ef, Eq in H. cbn in H. injection H as <- _.
+    apply (tvalues_lib P T HT) in Hb. eexists. apply in_map_iff. exists b. auto.
+  - (* refresh *) destruct u; try discriminate. injection Ho as <- <-. unfold refresh in H. cbn in H. injection H as <- _.
+    apply (tvalues_lib P T HT) in Hb. apply Hd in Hb. eexists. apply in_map_iff. exists b. split; [reflexivity|].
+    unfold refresh_targets. apply filter_In. auto.
+  - (* as_list *) injection Ho as <- <-. unfold as_list in H. injection H as <- _.
+    apply (tvalues_playlists P T HT) in Hb. apply Hd in Hb. eexists. apply in_map_iff. exists b. auto.
+  - (* playlists.refresh *) destruct s; try discriminate. injection Ho as <- <-. unfold pl_refresh in H. injection H as <- _.
+    apply (tvalues_playlists P T HT) in Hb. apply Hd in Hb. eexists. apply in_map_iff. exists b. split; [reflexivity|].
+    unfold refresh_targets. apply filter_In. auto.
+Qed.
+
 (* which methods a request kind invokes, and on whom (mixer methods on the mixer only) *)
 Theorem log_methods T P mx o log out :
   run_op T P mx o = (log, out) ->
